@@ -1053,6 +1053,9 @@ def gen_C13(tier, rng):
     P("", "empty")
     followers = list("az AZ09-_&|!~^*+(){}@#$%.,;:'\"\\/<>=?[]`") + [LONGS, KELVIN, " ", " ", "　", "\t", "\n", "\r", "\x0b", "\x0c", "\x85", "​", "﻿", "é", "İ", "ı", "ẞ", "ß", "中", "\U0001f600", "∧", "∨", "¬", "\x00", "\x7f", "́"]
     full_words = [v for w in WORDS for v in case_variants(w, tier != "quick")]
+    if tier == "quick":
+        # the one keyword spelling that is longer in bytes than its pattern (U+017F folds with s): seed P05_11
+        full_words += ["fal" + LONGS + "e", "FAL" + LONGS + "E", "Fal" + LONGS + "e", "fAl" + LONGS + "E"]
     for w in full_words + SYMBOLS + ["{", "}"]:
         for f in followers:
             P(w + f, "keyword_follower"); P("a " + w + f + " b", "keyword_follower"); P(f + w, "keyword_follower")
@@ -1424,6 +1427,18 @@ def gen_C20(tier, rng):
                 r2 = c.r("conv E %d" % r1); c.q("show %d" % r2); c.q("obs %d" % r2)
         dist["literal_clauses"] += 1
         cases.append(c.done("convw%d" % width, True))
+    # rejected CSV text: the error value (variant and message, e.g. WHICH name is reported as repeated) is a result too;
+    # headers with several different repeated names, ragged and incomplete tables, through both entry points, each
+    # read three times per process (and again in the other processes)
+    bad_csv = ["a,b,a,b,r\n0,0,0,0,1\n", "x,y,z,w,z,y,x,r\n", "b,a,b,a,c,c,r\n0,0,0,0,0,0,1\n", "a,a,r\n0,0,1\n", "q,p,q,p,q,r\n",
+               "a,r\n0,1\n1\n", "a,r\n0,x\n1,0\n", "a,b,r\n0,0,1\n", "a,r\n0,1\n0,0\n", "a,r\n2,1\n1,0\n", "a b,a b,c,c,r\n"]
+    for k_, t_ in enumerate(bad_csv):
+        c = Case("c20_csv%d" % k_)
+        for _ in range(3):
+            for w in ("str", "file"):
+                r = c.r("csvin %s %s" % (w, hexname(t_))); c.q("obs %d" % r)
+        dist["csv_errors"] += 1
+        cases.append(c.done("csv_err%d" % k_, True))
     # history dependence: many short-lived objects; normal forms are computed and dropped at once, so that any
     # hidden cache keyed by addresses or by earlier calls shows up as a result that depends on what ran before
     for n in range(60 if tier == "quick" else 600):
